@@ -22,6 +22,14 @@ class InjectedFilterSub(FilterException):
     """subclass of FilterException"""
 
 
+class InjectedFilterBare(FilterException):
+    """raised without any argument, as `raise FilterException` / `raise Skip()`
+    does: e.args == ()"""
+
+    def __init__(self, *where):
+        super().__init__()
+
+
 class InjectedKeyError(KeyError):
     """another unrelated Exception type"""
 
@@ -57,6 +65,7 @@ class ConsumerError(Exception):
 EXC_KINDS = {
     'filter': FilterException,
     'filter_sub': InjectedFilterSub,
+    'filter_bare': InjectedFilterBare,
     'value': InjectedError,
     'key': InjectedKeyError,
     'index': InjectedIndexError,
